@@ -132,6 +132,8 @@ def run_jun(fields):
     from netconan.utils import juniper_secrets as js
 
     try:
+        if fields[0] in ("gjenc", "gjdec"):
+            fields = [fields[0][1:]] + fields[1:]
         if fields[0] == "jenc":
             return "OK:" + js.juniper_nonrandom_encrypt(fields[1], fields[2])
         return "OK:" + js.juniper_decrypt(fields[1])
@@ -416,7 +418,7 @@ def run_files(fields):
         shutil.rmtree(root, ignore_errors=True)
 
 
-DISPATCH = {"gbase": run_ip, "main": run_main, "files": run_files, "asr": run_asr, "pipe": run_pipe, "base": run_ip, "ip4": run_ip, "ip6": run_ip, "jenc": run_jun, "jdec": run_jun}
+DISPATCH = {"gjenc": run_jun, "gjdec": run_jun, "gbase": run_ip, "main": run_main, "files": run_files, "asr": run_asr, "pipe": run_pipe, "base": run_ip, "ip4": run_ip, "ip6": run_ip, "jenc": run_jun, "jdec": run_jun}
 
 
 def main():
